@@ -271,6 +271,28 @@ var c20Positions = []c20Pos{
 	{"collection-member", func(x ap.Item) ap.Item {
 		return c20Fill(&ap.OrderedCollectionPage{ID: "https://example.com/c", Type: ap.OrderedCollectionPageType}, x)
 	}},
+	{"long-list-member", func(x ap.Item) ap.Item { return c20Long(x, 70) }},
+	{"long-list-property", func(x ap.Item) ap.Item {
+		return &ap.OrderedCollection{ID: "https://example.com/c", Type: ap.OrderedCollectionType, OrderedItems: c20Long(x, 40), To: c20Long(x, 34), Tag: c20Long(x, 18)}
+	}},
+}
+
+// c20Long is a list of n members in which x sits first, at 16, 17, 32, 33, 64, 65 (where they exist) and last.
+func c20Long(x ap.Item, n int) ap.ItemCollection {
+	l := make(ap.ItemCollection, n)
+	for i := range l {
+		switch i {
+		case 0, 16, 17, 32, 33, 64, 65, n - 1:
+			l[i] = x
+		default:
+			if i%3 == 0 {
+				l[i] = &ap.Object{ID: ap.IRI(fmt.Sprintf("https://example.com/long/%d", i)), Type: ap.NoteType}
+			} else {
+				l[i] = ap.IRI(fmt.Sprintf("https://example.com/long/%d", i))
+			}
+		}
+	}
+	return l
 }
 
 // c20Fill stores x in EVERY item-typed property of host (single-item properties directly, list properties as [x, iri]).
@@ -293,7 +315,7 @@ func init() {
 		ID: "C20", Name: "nil-items", Level: "model_checking",
 		Rule: "complete matrix: every helper of the table (predicates, ItemsEqual in both slots, On*/To* incl. OnCollectionIntf and the generic On/To, Flatten*, CleanRecipients, DerefItem, ItemOrderTimestamp, " +
 			"CopyItemProperties, CollectionPath.IRI/Of/AddTo, both encoders and the JSON item writers, Contains/Append/Remove/ItemsMatch on the containers) x 15 nil kinds (untyped nil + nil pointer of each struct) x " +
-			"7 positions (the argument itself, member of a list, every item property of an Object / Actor / Question / Activity / collection page at once); every case runs in isolation; non-trivial = typed nil",
+			"9 positions (the argument itself, member of a short and of a 70-member list, several times in the long lists of a collection, every item property of an Object / Actor / Question / Activity / collection page at once); every case runs in isolation; non-trivial = typed nil",
 		Assumptions: []string{"the helper table is audited against the exported functions of the current tree on every run (gaps are listed in the evidence, not judged)",
 			"at the top position a callback must receive a nil pointer; below it callbacks are only required not to crash"},
 		Bound: func(string) string { return "complete matrix (same in both tiers)" },
